@@ -1364,6 +1364,7 @@ func (ls *LState) Insert(value LValue, index int) {
 	reg := ls.indexToReg(index)
 	top := ls.reg.Top()
 	if reg >= top {
+		ls.reg.SetTop(reg) // an index beyond top+1: the skipped slots become LNil
 		ls.reg.Set(reg, value)
 		return
 	}
